@@ -114,6 +114,29 @@ def run(ctx):
             fr, _ = P.res_path_lit(lambda: cayleypy.find_path(G.make_graph(gd, cfgd), list(q), **kwj))          # fresh object, plain list
             if fr != r:
                 ctx.violation("property_fails", f"find_path answers {r} after earlier calls but {fr} on a fresh graph", case, True)
+        # find_path on a graph obtained by modified_copy (same generators, another central state): a graph like any other
+        if gd["kind"] == "perm" and gi_ % 3 == 1 and len(dist_to_c) >= 4:
+            other = list(rng.choice(sorted(dist_to_c)))
+            gd_o = dict(gd, central=other)
+            gcopy = graph.modified_copy(graph.definition.with_central_state(other))
+            if ic:
+                _, dist_o = G.ref_bfs(gd_o, [other])
+            else:
+                _, dist_o = G.ref_bfs(reverse_graph(gd_o), [other])
+            lay_o = {}
+            for s_, d_ in dist_o.items():
+                lay_o.setdefault(d_, []).append(s_)
+            sizes_o = [len(lay_o[i]) for i in range(len(lay_o))]
+            kwc = {"max_diameter": rng.choice([1, 2, 3])}
+            deff_o = min(kwc["max_diameter"], len(sizes_o) - 1)
+            for q in [list(rng.choice(sorted(dist_o))) for _ in range(4)]:
+                r, _ = P.res_path_lit(lambda: cayleypy.find_path(gcopy, list(q), **kwc))
+                ctx.count("find_path_on_modified_copy")
+                msg = check_fp(gd_o, dist_o, deff_o, q, r)
+                if msg:
+                    ctx.violation("property_fails", "on a modified copy (same generators, other central state): " + msg,
+                                  {"graph": gd_o, "config": cfgd, "kwargs_per_call": [kwc], "queries": [list(q)], "finder": "find_path", "derived_from_central": list(gd["central"])}, True)
+                    break
         if len(layers) >= 4:
             # many more start states between D and 2D (implementation against the reference distances only; the model replays the queries above);
             # on coset graphs (not vertex-transitive) the neighbourhood of a start state may grow faster than the ball around the central state
@@ -143,6 +166,9 @@ def replay(ctx, obj):
     if obj.get("kind") == "property_fails" and case.get("finder") == "find_path":
         gd, cfgd, kws, qs = case["graph"], case["config"], case["kwargs_per_call"], case["queries"]
         graph = G.make_graph(gd, cfgd)
+        if case.get("derived_from_central") is not None:
+            base_ = G.make_graph(dict(gd, central=case["derived_from_central"]), cfgd)
+            graph = base_.modified_copy(base_.definition.with_central_state(list(gd["central"])))
         ic = bool(graph.definition.generators_inverse_closed)
         if ic:
             layers, dist_to_c = G.ref_bfs(gd, [gd["central"]])
